@@ -9,9 +9,9 @@ extern "C" {
 typedef long double LD;
 static double const EPS = 2.220446049250313e-16;
 
-enum { L_MF, L_MF_BREAKPOINT, L_MF_DEGENERATE, L_MF_SMOOTH, L_MF_LINEAR, L_OPR, L_OPR_BOUNDARY, L_INFER, L_INFER_2x2, L_INFER_NONE_ACTIVE, L_INFER_ZERO_JOINT, L_OPR_EQU, L_OPR_CAP_B, L_N_GE_5, L_ACTIVE_GE_3, L_MF_EXTREME_SCALE };
+enum { L_MF, L_MF_BREAKPOINT, L_MF_DEGENERATE, L_MF_SMOOTH, L_MF_LINEAR, L_OPR, L_OPR_BOUNDARY, L_INFER, L_INFER_2x2, L_INFER_NONE_ACTIVE, L_INFER_ZERO_JOINT, L_OPR_EQU, L_OPR_CAP_B, L_N_GE_5, L_ACTIVE_GE_3, L_MF_EXTREME_SCALE, L_RECONFIGURED };
 static char const *const labels[] = {"membership_function", "x_within_2ulp_of_breakpoint", "degenerate_shoulder", "smooth_family", "piecewise_linear_family", "operators", "operator_boundary_argument",
-                                     "inference_step", "ge_2_active_sets_on_both_inputs", "no_active_set", "all_joint_memberships_zero", "operator_equ", "operator_cap_bounded", "rule_order_ge_5", "ge_3_active_sets_on_an_input", "mf_scaled_beyond_2^+-900", nullptr};
+                                     "inference_step", "ge_2_active_sets_on_both_inputs", "no_active_set", "all_joint_memberships_zero", "operator_equ", "operator_cap_bounded", "rule_order_ge_5", "ge_3_active_sets_on_an_input", "mf_scaled_beyond_2^+-900", "consequent_tables_changed_mid_history", nullptr};
 static char const *const metrics[] = {"max_mf_error_over_tol", "max_inference_error_over_tol", "max_active_sets", nullptr};
 static uint8_t const dict[] = {0, 1, 2, 3, 7, 8};
 static vp_info const info = {"C13", "fuzzy", "", labels, metrics, 400, dict, sizeof(dict)};
@@ -199,7 +199,19 @@ static void case_mf(Tape &t, Ctx &cx)
         snprintf(sig, sizeof(sig), "mf_%s:wrong_value", nm[type]);
         if (!(err <= tol)) { cx.fail(sig, "a_mf_%s(x=%.17g; %.17g, %.17g, %.17g, %.17g) = %.17g, the documented shape gives %.17Lg", nm[type], x, p[0], p[1], p[2], p[3], y, ref); }
         bool exact_family = type == A_MF_TRAP || type == A_MF_TRI || type == A_MF_LINS || type == A_MF_LINZ || type == A_MF_S || type == A_MF_Z || type == A_MF_PI || type == A_MF_GAUSS2;
-        if (ref == 1 && exact_family)
+        // membership of the core is decided on the arguments themselves: a reference value that merely *rounds* to 1 on a flank
+        // (double rounding in the long double quotient) does not oblige the double result to be exactly 1
+        bool in_core = false;
+        switch (type)
+        {
+        case A_MF_TRAP: case A_MF_PI: in_core = x >= p[1] && x <= p[2]; break;
+        case A_MF_TRI: in_core = x == p[1]; break;
+        case A_MF_LINS: case A_MF_S: in_core = x >= p[1]; break;
+        case A_MF_LINZ: case A_MF_Z: in_core = x <= p[0]; break;
+        case A_MF_GAUSS2: in_core = x >= p[1] && x <= p[3]; break;
+        default: break;
+        }
+        if (ref == 1 && in_core && exact_family)
         {
             snprintf(sig, sizeof(sig), "mf_%s:core_not_one", nm[type]);
             VP_CHECK(cx, y == 1.0, sig, "a_mf_%s on its core (x=%.17g) = %.17g, not exactly 1", nm[type], x, y);
@@ -401,6 +413,16 @@ static void case_infer(Tape &t, Ctx &cx)
     for (unsigned s = 0; s < steps; ++s)
     {
         ++cx.rep->subcases;
+        if (s > 0 && t.u8() % 6 == 0)
+        {
+            // reconfigure the live controller: another subset of the three consequent tables present; the base gains stay
+            uint8_t m = t.u8();
+            f.use_kp = (m & 1) != 0; f.use_ki = (m & 2) != 0; f.use_kd = (m & 4) != 0;
+            a_pid_fuzzy_set_rule(&ctx, f.n, me, mec, f.use_kp ? kp : nullptr, f.use_ki ? ki : nullptr, f.use_kd ? kd : nullptr);
+            cx.log("  set_rule mid-history: kp %d ki %d kd %d\n", f.use_kp, f.use_ki, f.use_kd);
+            cx.label(L_RECONFIGURED);
+            cx.hash.add(m & 7);
+        }
         // error and error change anywhere in / around the table ranges, incl. exactly on set centres
         auto gv = [&](double L) {
             switch (t.u8() % 5)
